@@ -37,9 +37,6 @@ Section MapM.
     end.
 End MapM.
 
-Fixpoint map2 {A B C} (f : A -> B -> C) (xs : list A) (ys : list B) : list C :=     (* zip, truncating *)
-  match xs, ys with x :: xr, y :: yr => f x y :: map2 f xr yr | _, _ => [] end.
-
 (* ------------------------------------------------------------------------------------------------
    index expressions *)
 Record pyslice := mkSlice { sl_start : option Z; sl_stop : option Z; sl_step : option Z }.
